@@ -44,7 +44,14 @@ pub struct RecComp { pub h: usize, pub attrs: Vec<Attr> }
 pub enum CAttr { Leaf(Attr), Record { len: usize, comps: Vec<RecComp>, off: usize } }
 
 #[derive(Clone, Debug)]
-pub struct Member<A> { pub h: usize, pub attrs: Vec<A>, pub off: usize }
+pub struct Member<A> {
+	pub h: usize,
+	pub attrs: Vec<A>,
+	pub off: usize,
+	/// `name_index` and `descriptor_index` name `CONSTANT_Utf8` entries and the name is a valid unqualified (method) name
+	/// (JVMS §4.2.2) — what a reader that visits the member has to resolve, and a reader that skips it never looks at
+	pub ok: bool,
+}
 
 #[derive(Clone, Debug)]
 pub struct Frame {
@@ -280,6 +287,20 @@ impl<'a> Ctx<'a> {
 
 fn utf8_len_h(ctx: &Ctx, idx: usize) -> Option<usize> { Some(ctx.name(idx)?.len()) }
 
+/// JVMS §4.2.2: unqualified names are non-empty and hold none of `. ; [ /`; method names also no `<` `>` except the two special ones
+fn member_name_ok(name: &[u8], method: bool) -> bool {
+	if method && (name == b"<init>" || name == b"<clinit>") { return true; }
+	!name.is_empty() && !name.iter().any(|c| matches!(c, b'.' | b';' | b'[' | b'/') || (method && matches!(c, b'<' | b'>')))
+}
+
+/// (fingerprint, ok) of a member header
+fn member_head(ctx: &Ctx, acc: usize, name: usize, desc: usize, method: bool) -> (usize, bool) {
+	match (ctx.name(name), ctx.name(desc)) {
+		(Some(n), Some(_)) if member_name_ok(n, method) => (member_h(acc as u16, n.len(), method), true),
+		(n, _) => (member_h(acc as u16, n.map(|n| n.len()).unwrap_or(0), method), false),
+	}
+}
+
 /// frame of the class file that starts at `b[0]`; `None` when the bytes are not laid out as a class file with
 /// attribute bodies of their JVMS shape (used for generator inputs only — the executor never looks at frames)
 pub fn frame(b: &[u8]) -> Option<Frame> {
@@ -313,15 +334,16 @@ pub fn frame(b: &[u8]) -> Option<Frame> {
 	let mut fields = Vec::new();
 	for _ in 0..nf {
 		let off = r.p;
-		let acc = r.u2()?; let name = r.u2()?; let _desc = r.u2()?;
+		let acc = r.u2()?; let name = r.u2()?; let desc = r.u2()?;
 		let attrs = ctx.leafs(L_FIELD, &mut r)?;
-		fields.push(Member { h: member_h(acc as u16, utf8_len_h(&ctx, name)?, false), attrs, off });
+		let (h, ok) = member_head(&ctx, acc, name, desc, false);
+		fields.push(Member { h, attrs, off, ok });
 	}
 	let nm = r.u2()?;
 	let mut methods = Vec::new();
 	for _ in 0..nm {
 		let off = r.p;
-		let acc = r.u2()?; let name = r.u2()?; let _desc = r.u2()?;
+		let acc = r.u2()?; let name = r.u2()?; let desc = r.u2()?;
 		let n = r.u2()?;
 		let mut attrs = Vec::new();
 		for _ in 0..n {
@@ -329,7 +351,8 @@ pub fn frame(b: &[u8]) -> Option<Frame> {
 			if k == "code" { attrs.push(MAttr::Code(ctx.code(len, aoff, body, aoff + 6)?)); }
 			else { attrs.push(MAttr::Leaf(ctx.leaf(L_METHOD, k, len, aoff, body)?)); }
 		}
-		methods.push(Member { h: member_h(acc as u16, utf8_len_h(&ctx, name)?, true), attrs, off });
+		let (h, ok) = member_head(&ctx, acc, name, desc, true);
+		methods.push(Member { h, attrs, off, ok });
 	}
 	let attrs_off = r.p;
 	let n = r.u2()?;
@@ -370,11 +393,13 @@ fn attrs_sexp(a: &[Attr]) -> Sexp { Sexp::list(a.iter().map(|x| x.sexp()).collec
 
 impl Frame {
 	pub fn sexp(&self) -> Sexp {
-		let fields = self.fields.iter().map(|f| Sexp::list(vec![nat(f.h), attrs_sexp(&f.attrs)])).collect();
-		let methods = self.methods.iter().map(|m| Sexp::list(vec![nat(m.h), Sexp::list(m.attrs.iter().map(|a| match a {
+		// a member is `(h attrs)`; one whose name / descriptor does not resolve is `(h attrs f)`
+		let member = |h: usize, attrs: Sexp, ok: bool| if ok { Sexp::list(vec![nat(h), attrs]) } else { Sexp::list(vec![nat(h), attrs, Sexp::bool(false)]) };
+		let fields = self.fields.iter().map(|f| member(f.h, attrs_sexp(&f.attrs), f.ok)).collect();
+		let methods = self.methods.iter().map(|m| member(m.h, Sexp::list(m.attrs.iter().map(|a| match a {
 			MAttr::Leaf(a) => a.sexp(),
 			MAttr::Code(c) => Sexp::list(vec![Sexp::tag("Code"), nat(c.len), nat(c.hdr), nat(c.maxs), nat(c.insns), nat(c.exc), attrs_sexp(&c.attrs)]),
-		}).collect())])).collect();
+		}).collect()), m.ok)).collect();
 		let attrs = self.attrs.iter().map(|a| match a {
 			CAttr::Leaf(a) => a.sexp(),
 			CAttr::Record { len, comps, .. } => Sexp::list(vec![Sexp::tag("Record"), nat(*len),
